@@ -893,11 +893,12 @@ class Vector():
 		# CASE B: Other is 2D (Table on Right)
 		# v == T -> [v==C1, v==C2, ...]
 		if isinstance(other, Vector) and other.ndims() == 2:
+			# (unnamed, like T == v: a comparison does not carry the name of an operand)
 			return other.copy(tuple(
 				# recursive call: self == Column
 				self._elementwise_compare(col, op) 
 				for col in other.cols()
-			))
+			), name=None)
 		
 		if isinstance(other, Vector):
 			# Raise mismatched lengths
@@ -985,7 +986,8 @@ class Vector():
 			for orig_col, result_col in zip(other.cols(), result_cols):
 				result_col._name = orig_col._name
 				result_col._wild = orig_col._wild
-			return other.copy(result_cols)
+			# (the columns keep their names, the result does not take the table's own: T + v is unnamed too)
+			return other.copy(result_cols, name=None)
 		
 		if isinstance(other, Vector):
 			if len(self) != len(other):
